@@ -40,11 +40,7 @@ func strlcp(a, b string) string {
 
 // quoteWorkingDirectory escapes the glob meta characters in that part of the
 // absolute pattern abs which is an ancestor of (or is) the working directory.
-func quoteWorkingDirectory(abs string) (string, error) {
-	wd, err := os.Getwd()
-	if err != nil {
-		return "", err
-	}
+func quoteWorkingDirectory(abs, wd string) (string, error) {
 	wd = filepath.ToSlash(wd)
 	for wd != "/" && wd != "." && !strings.HasPrefix(abs+"/", strings.TrimSuffix(wd, "/")+"/") {
 		wd = filepath.ToSlash(filepath.Dir(wd))
@@ -84,17 +80,23 @@ func Glob(pattern, dst string, ignoreMatchers bool) (map[string]string, error) {
 	// literal is the path the pattern names when it contains no matchers
 	literal := pattern
 	if strings.HasPrefix(pattern, "../") {
-		p, err := filepath.Abs(pattern)
+		// ".." is the parent of the working directory itself, as for every
+		// path the operating system resolves - not of a symbolic link through
+		// which the directory was entered (os.Getwd may report $PWD)
+		wd, err := os.Getwd()
+		if err == nil {
+			wd, err = filepath.EvalSymlinks(wd)
+		}
 		if err != nil {
 			return nil, fmt.Errorf("failed to resolve pattern: %s: %w", pattern, err)
 		}
-		pattern = filepath.ToSlash(p)
+		pattern = filepath.ToSlash(filepath.Join(wd, pattern))
 		literal = pattern
 		if !ignoreMatchers {
 			// only what was written is a pattern: the working directory the
 			// pattern is resolved against is a literal path, whatever
 			// characters its name contains
-			quoted, err := quoteWorkingDirectory(pattern)
+			quoted, err := quoteWorkingDirectory(pattern, wd)
 			if err != nil {
 				return nil, fmt.Errorf("failed to resolve pattern: %s: %w", pattern, err)
 			}
